@@ -8,3 +8,5 @@ import SkoolVerif.Proofs.SimWf
 import SkoolVerif.Props.C18
 import SkoolVerif.Props.C16
 import SkoolVerif.Props.C14
+import SkoolVerif.Props.C11
+import SkoolVerif.Props.C04
